@@ -9,12 +9,13 @@ balance; cost-basis weights add up to 1; realised basis + U = total cost of ever
 from __future__ import annotations
 
 import os
+from datetime import date
 from fractions import Fraction
 from typing import Any, Dict, List, Optional, Tuple
 
 from hypothesis import strategies as st
 
-from .. import cli, cli_common, filegen, files, gen, model, report_model
+from .. import cli, cli_common, drive_api, filegen, files, gen, model, report_model
 from ..report_model import cellv, num_equal, to_fraction
 from ..runner import Outcome
 from . import c13
@@ -91,6 +92,17 @@ def evaluate(case: Dict[str, Any]) -> Outcome:
         to_d = model.parse_date(case.get("to"))
         if to_d is not None:
             out.classes.add("with_to_date")
+            # what has been consumed up to the to-date is selected here, by the event's own date, from a run without a to-date
+            # (C09 / C10 guarantee identical fractions): a defect in rp2's to-date filtering would otherwise hide the same disposals
+            # from this reference and from the report alike
+            ini, ods = os.path.join(folder, "input.ini"), os.path.join(folder, "input.ods")
+            unfiltered = drive_api.compute_files(
+                ini, ods, case["country"], schedule=cli_common.schedule_of(case), long_term_days=case.get("long_term_days"), from_date=None, to_date=None,
+                allow_negative=bool(case.get("allow_negative")), assets=[case["asset_opt"]] if case.get("asset_opt") else None,
+            )
+            if unfiltered.get("ok"):
+                for asset in reference["assets"]:
+                    reference["assets"][asset]["fractions"] = [f for f in unfiltered["assets"][asset]["fractions"] if date(*f["ev_date"]) <= to_d]
         label = cli.method_label(case.get("method"), case.get("schedule"), case["country"])
         path = os.path.join(outdir, f"{case.get('prefix') or ''}{label}_open_positions.ods")
         t = report_model.translator(lang)
